@@ -39,8 +39,8 @@ class C14(CodecCheck):
     pid = "C14"
     level_text = ("the encoders are defined by bit fields in TLA+ and TLC proves the round trips on all byte arrays over a boundary alphabet; every "
                   "byte value in every group position, every byte pair (quick) / every one of the 2^24 three-byte groups (thorough), every length "
-                  "0..50 and random arrays are encoded by the library, decoded back through both decoder forms, and decided by TLC")
-    rule = ("every byte value in each position of a 3-byte group x 4 backgrounds; lengths 0..50; all arrays over {00,01,3F,40,7F,80,AA,FF} up to "
+                  "0..200 and random arrays are encoded by the library, decoded back through both decoder forms, and decided by TLC")
+    rule = ("every byte value in each position of a 3-byte group x 4 backgrounds; lengths 0..200; all arrays over {00,01,3F,40,7F,80,AA,FF} up to "
             "length 3; all 65,536 byte pairs at group positions (0,1) and (1,2); seeded random arrays up to 64 bytes; thorough: all 16,777,216 groups")
     exhaustive_note = "thorough tier enumerates all 2^24 three-byte groups (the full-group arithmetic of both codecs)"
 
@@ -67,7 +67,8 @@ class C15(CodecCheck):
                   "texts and never writes beyond output_size on all texts over {A,/,=,!,NUL,80} up to length 8; the same texts are decoded by the "
                   "library into exact-size buffers for every output_size and with a null output, and TLC decides every return value and content")
     rule = ("all base64 texts over {A,/,=,!,NUL,0x80} up to length 5 and all length-8 texts over {A,=,!} (quick) / up to length 8 over 6 symbols "
-            "(thorough); all hex texts over {0,9,a,F,g,G,space,NUL,0x80} up to length 4 (quick) / 6 (thorough); seeded random texts; each through "
+            "(thorough); all hex texts over {0,9,a,F,g,G,space,NUL,0x80} up to length 4 (quick) / 6 (thorough); valid texts of every length (hex 2..48, "
+            "base64 4..96 with each padding) and the same with one character replaced by an invalid one at every position; seeded random texts; each through "
             "the allocating decoder, the null-output call and every output_size from 0 to two above the largest possible result")
 
     def models(self, tier):
@@ -80,6 +81,7 @@ class C15(CodecCheck):
         if q:
             J += sharded("c15-b64-8", e, ["--gen", "dec", "--alpha", "65,61,33", "--minlen", "8", "--maxlen", "8"], 2)
         J += sharded("c15-hex", e, ["--gen", "dec", "--alpha", HEX_ALPHA, "--maxlen", "4" if q else "6"], 2 if q else 24)
+        J += sharded("c15-pos", e, ["--gen", "decpos"], 4 if q else 8)
         J += sharded("c15-rand", e, ["--gen", "decrand", "--count", "20000" if q else "400000", "--seed", str(seed)], 4 if q else 16)
         return J
 
